@@ -737,6 +737,9 @@ func (b *Builder) callMulti(call *ast.CallExpr, nres int) []*Term {
 			if lits := b.funcVarLits(v); len(lits) > 0 {
 				return b.dispatchLits(call, id, lits)
 			}
+			if out, ok := b.handlerMapCall(call, id, v); ok {
+				return out
+			}
 		}
 	}
 	// dynamic call through a function value
@@ -1130,6 +1133,189 @@ func (b *Builder) funcVarLits(v *types.Var) []*ast.FuncLit {
 	return lits
 }
 
+// handlerMapCall builds `h(args)` where the local h was defined once as `h, ok := M[k]` (or
+// `h := M[k]`) from a never-written package-level map M of the same package with constant scalar
+// keys and function values (named functions or literals) and a pure key expression k: one branch
+// per row, `k == key_i` followed by the call of that row's function - what a switch over k with one
+// call per case is.
+func (b *Builder) handlerMapCall(call *ast.CallExpr, id *ast.Ident, v *types.Var) ([]*Term, bool) {
+	root := b.inst
+	for root != nil && root.Fn == nil {
+		if root.Lexical != nil {
+			root = root.Lexical
+		} else {
+			root = root.Parent
+		}
+	}
+	if root == nil || root.Fn == nil {
+		return nil, false
+	}
+	fs := b.P.Funcs[root.Fn.Origin()]
+	if fs == nil || fs.Pkg.TypesInfo != b.info {
+		return nil, false
+	}
+	info := b.info
+	var ix *ast.IndexExpr
+	ndef := 0
+	ast.Inspect(fs.Decl.Body, func(n ast.Node) bool {
+		as, ok := n.(*ast.AssignStmt)
+		if !ok {
+			return true
+		}
+		for i, l := range as.Lhs {
+			lid, isId := l.(*ast.Ident)
+			if !isId || (info.Defs[lid] != v && info.Uses[lid] != v) {
+				continue
+			}
+			ndef++
+			if i == 0 && len(as.Rhs) == 1 {
+				if x, isIx := ast.Unparen(as.Rhs[0]).(*ast.IndexExpr); isIx {
+					ix = x
+				}
+			}
+		}
+		return true
+	})
+	if ndef != 1 || ix == nil {
+		return nil, false
+	}
+	mid, ok := ast.Unparen(ix.X).(*ast.Ident)
+	if !ok {
+		return nil, false
+	}
+	mv, ok := info.Uses[mid].(*types.Var)
+	if !ok || !isPkgLevel(mv) || !b.P.neverWritten(mv) {
+		return nil, false
+	}
+	mt, ok := mv.Type().Underlying().(*types.Map)
+	if !ok {
+		return nil, false
+	}
+	if kb, ok := mt.Key().Underlying().(*types.Basic); !ok || kb.Info()&(types.IsString|types.IsInteger) == 0 {
+		return nil, false
+	}
+	if _, isFn := mt.Elem().Underlying().(*types.Signature); !isFn {
+		return nil, false
+	}
+	switch k := ast.Unparen(ix.Index).(type) {
+	case *ast.Ident:
+		if _, isVar := info.Uses[k].(*types.Var); !isVar {
+			return nil, false
+		}
+	default:
+		return nil, false // only a plain variable is re-read
+	}
+	pk := b.P.All[mv.Pkg().Path()]
+	if pk == nil || pk.TypesInfo != info {
+		return nil, false
+	}
+	cl, ok := ast.Unparen(findInit(pk.Syntax, pk.TypesInfo, mv)).(*ast.CompositeLit)
+	if !ok || len(cl.Elts) == 0 || len(cl.Elts) > 16 {
+		return nil, false
+	}
+	type row struct {
+		k   *Term
+		fn  *types.Func
+		lit *ast.FuncLit
+	}
+	var rows []row
+	for _, e := range cl.Elts {
+		kv, ok := e.(*ast.KeyValueExpr)
+		if !ok {
+			return nil, false
+		}
+		ktv, kok := info.Types[kv.Key]
+		if !kok || ktv.Value == nil {
+			return nil, false
+		}
+		r := row{k: constTerm(ktv.Value)}
+		switch x := ast.Unparen(kv.Value).(type) {
+		case *ast.FuncLit:
+			r.lit = x
+		case *ast.Ident:
+			r.fn, _ = info.Uses[x].(*types.Func)
+		case *ast.SelectorExpr:
+			r.fn, _ = info.Uses[x.Sel].(*types.Func)
+		}
+		if r.lit == nil && r.fn == nil {
+			return nil, false
+		}
+		rows = append(rows, r)
+	}
+	var args []*Term
+	for _, a := range call.Args {
+		args = append(args, b.expr(a))
+	}
+	nres := 0
+	if tv, ok := info.Types[call.Fun]; ok {
+		if sig, ok := tv.Type.Underlying().(*types.Signature); ok {
+			nres = sig.Results().Len()
+		}
+	}
+	temps := make([]*Var, nres)
+	for i := range temps {
+		temps[i] = b.tempVar("hres", nil)
+	}
+	b.flush(call.Pos())
+	kt := b.expr(ix.Index)
+	done := b.label()
+	vobj := info.Uses[id]
+	for _, r := range rows {
+		tN, fN := b.label(), b.label()
+		br := b.newNode(NBranch, call.Pos())
+		br.Cond = mk("bin", "==", kt, r.k)
+		b.emit(br)
+		br.Succ = []*Node{tN, fN}
+		b.cur = nil
+		b.start(tN)
+		var outs []*Term
+		if r.lit != nil {
+			b.expr(r.lit) // registers the literal
+			outs = b.inlineLit(r.lit, args, call.Pos(), nres)
+		} else {
+			if b.fnBind == nil {
+				b.fnBind = map[types.Object]*types.Func{}
+			}
+			prev, had := b.fnBind[vobj]
+			b.fnBind[vobj] = r.fn
+			outs = b.callMulti(call, nres)
+			if had {
+				b.fnBind[vobj] = prev
+			} else {
+				delete(b.fnBind, vobj)
+			}
+		}
+		for i, tv := range temps {
+			if i < len(outs) {
+				b.assignVar(tv, outs[i], call.Pos())
+			}
+		}
+		b.jump(done)
+		b.start(fN)
+	}
+	// no row: the zero (nil) function value - the call would panic; an opaque call keeps the graph total
+	t := &Term{Op: "call", Name: "dyn", Args: append([]*Term{b.expr(id)}, args...), Pos: call.Pos()}
+	b.pending = append(b.pending, t)
+	b.flush(call.Pos())
+	for i, tv := range temps {
+		if nres <= 1 {
+			b.assignVar(tv, t, call.Pos())
+		} else {
+			b.assignVar(tv, &Term{Op: "res", Name: strconv.Itoa(i), Args: []*Term{t}, Pos: call.Pos()}, call.Pos())
+		}
+	}
+	b.jump(done)
+	b.start(done)
+	if nres == 0 {
+		return nil, true
+	}
+	out := make([]*Term, nres)
+	for i, tv := range temps {
+		out[i] = varTerm(tv)
+	}
+	return out, true
+}
+
 // dispatchLits builds `f(args)` for a variable holding one of lits.
 func (b *Builder) dispatchLits(call *ast.CallExpr, id *ast.Ident, lits []*ast.FuncLit) []*Term {
 	var args []*Term
@@ -1282,6 +1468,10 @@ func (b *Builder) constScalarMapLookup(x *ast.IndexExpr, wantOK bool) []*Term {
 	if _, isIface := mt.Elem().Underlying().(*types.Interface); isIface && zero == nil {
 		zero = tNil
 	}
+	_, fnValued := mt.Elem().Underlying().(*types.Signature)
+	if fnValued && zero == nil {
+		zero = tNil
+	}
 	if zero == nil {
 		return nil
 	}
@@ -1301,6 +1491,23 @@ func (b *Builder) constScalarMapLookup(x *ast.IndexExpr, wantOK bool) []*Term {
 			val = constTerm(vtv.Value)
 		} else if vl, isLit := ast.Unparen(kv.Value).(*ast.CompositeLit); isLit && len(vl.Elts) == 0 && zero != tNil {
 			val = zero // struct{}{}
+		} else if fnValued && pk.TypesInfo == b.info {
+			// a row of a table of handlers: a named function or a literal
+			switch x := ast.Unparen(kv.Value).(type) {
+			case *ast.FuncLit:
+				val = b.expr(x)
+			case *ast.Ident:
+				if fn, isFn := pk.TypesInfo.Uses[x].(*types.Func); isFn {
+					val = &Term{Op: "fn", Name: b.P.abbrev(fn.FullName())}
+				}
+			case *ast.SelectorExpr:
+				if fn, isFn := pk.TypesInfo.Uses[x.Sel].(*types.Func); isFn {
+					val = &Term{Op: "fn", Name: b.P.abbrev(fn.FullName())}
+				}
+			}
+			if val == nil {
+				return nil
+			}
 		} else if vtv, vok := pk.TypesInfo.Types[kv.Value]; vok && vtv.IsNil() {
 			val = tNil
 		} else if vl, isLit := ast.Unparen(kv.Value).(*ast.CompositeLit); isLit && len(vl.Elts) == 0 && pk.TypesInfo == b.info {
